@@ -26,6 +26,18 @@ NOTES = {
     'C13-d': 'needs an exception instance whose truth value is False: the fault plan now raises such instances for part of the failing calls',
     'C03-d': 'needs a source that emits while it is being subscribed: a cold synchronous driver is now used for part of the cases',
     'C11-d': 'needs a closing item whose timestamp is older than its predecessor (clock skew): C11 now injects backward timestamp jumps for time_split cases (C07 itself stays within its non-decreasing precondition)',
+    'C17-e': 'needs an alias spelling of the encoding name (utf16, u16, utf32, u32): alias spellings are now generated',
+    'C15-e': 'needs the same operator twice in one synchronous chain (a length-prefixed stream tunnelled in another): nested same-operator scenarios added to C15 and C16',
+    'C07-e': 'needs numpy scalar timestamps: np.int64 / np.float64 / np.datetime64 time mappers added',
+    'C06-e': 'needs one shared nan object as predicate value for consecutive items: nan predicate values added for split (ported onto the repaired split.py). Generating them exposed a genuine defect (nan as first predicate value gave an empty first segment), repaired in d34c07e',
+    'C11-e': 'same change as C06-e (three sub-agents converged on it). C11 by design skips an operator instance whose window *contents* disagree with the model; the change is a segmentation bug and is caught by C06',
+    'C02-e': 'same change as C06-e. Not a state leak: every observed (merged) lifetime is still a function of its own items, so C02 is rightly silent; caught by C06',
+    'C10-e': 'numpy scalars as key_mapper results (already generated after wave 4)',
+    'C13-e': 'needs OverflowError raised by the accumulator: the fault plan now rotates through builtin exception families (Overflow, StopIteration, Key, Lookup, Assertion, Type, Memory)',
+    'C01-e': 'needs a hashable but mutable seed object: user-class accumulator objects (alone and inside a tuple) added as value and factory seeds',
+    'C04-e': 'needs nan keys: fresh nan objects (each its own group under ==) and None keys are now generated for group_by; the one shared nan object stays excluded for group_by because dict lookup finds it by identity, which == does not describe',
+    'C05-e': 'needs a single key with more than 131072 items and a length just past a multiple of 2**16: caught by the thorough tier only (ultra-long single-key scenario, 0.2 % of thorough cases)',
+    'C09-e': 'NOT caught, deliberately: rs.math.min is changed only for values of a non-total order (nan in the middle of a key). C09 is about scan folding *the operator\'s accumulator*; which of two incomparable values min() keeps is not specified by any property (C12, not a simulation target, covers finite sequences only)',
     'C08-c': 'NOT caught, deliberately: it only shows when the *same* tee_map observable is subscribed a second time. Re-subscription is not in the property (and is not something rxsci supports in general: the publish() subject of tee_map is created once per pipeline and dies with the first completion - a resubscription oracle raised false alarms on the unchanged tree and was removed)',
     'C13-c': 'NOT caught, deliberately: it needs the same error router to be reused for a second stream lifetime after a first one ended in on_error; the property speaks about one stream ("completes with the stream"), so a single-use router would satisfy it - an oracle for reuse would be stronger than the text',
 }
